@@ -565,6 +565,7 @@ class C05(Check):
         ctx.phase(self.corr_specs, ctx)
         ctx.phase(self.oracle_classify, ctx)
         ctx.phase(self.corr_lex2, ctx)
+        ctx.phase(self.corr_push, ctx)
         ctx.phase(self.oracle_escape_spellings, ctx)
         ctx.phase(self.oracle_completion, ctx)
         ctx.phase(self.oracle_errors, ctx)
@@ -767,6 +768,7 @@ class C05(Check):
                 lines.append('tok %d %d %s' % (full, doc, enc(text)))
                 cases.append((text, full, doc, kind))
         out = ctx.driver(lines, timeout=1500) if ctx.model_ok else [None] * len(lines)
+        pend = {}
         for (text, full, doc, kind), m in zip(cases, out):
             try:
                 toks = impl_tokens(text, full, doc)
@@ -789,12 +791,34 @@ class C05(Check):
                     ctx.dist['type:' + str(t[0])] += 1
                 got = 'DONE | ' + show_tokens(toks)
                 self.oracle_shrunk(ctx, text, full, doc, toks)
+                other = pend.pop((text, doc), None)
+                if other is None:
+                    pend[(text, doc)] = toks
+                else:
+                    self.oracle_full_partial(ctx, text, doc, toks if full else other, other if full else toks)
             if m is not None:
                 head, mt = parse_reply(m)
                 mine = ('DONE | ' + show_tokens(mt)) if head.startswith('DONE') else head
                 if mine.strip() != got.strip():
                     ctx.disagree('tokenize', {'text': enc(text), 'repr': repr(text), 'full': full, 'doComments': doc},
                                  got, mine)
+
+    def oracle_full_partial(self, ctx, text, doc, tf, tp):
+        """theorem full_sheet_completion, on the implementation: full-sheet mode yields the partial-sheet tokens, or
+        a common prefix and ONE completed STRING / URI / COMMENT at the position of the partial-sheet token there"""
+        f = tf[:-1] if tf and tf[-1][0] == 'EOF' else tf
+        if f == tp:
+            return
+        i = 0
+        while i < len(f) and i < len(tp) and f[i] == tp[i]:
+            i += 1
+        ok = (len(f) == i + 1 and i < len(tp) and f[i][0] in (('STRING', 'URI', 'COMMENT') if doc else ('STRING', 'URI'))
+              and (f[i][2], f[i][3]) == (tp[i][2], tp[i][3]))
+        if not ok:
+            ctx.violate('full-sheet mode: an unterminated comment, string or url( is completed at the end of input',
+                        {'text': enc(text), 'repr': repr(text), 'full': True, 'doComments': doc},
+                        {'fullsheet': [list(t) for t in f[i:i + 3]], 'partial': [list(t) for t in tp[i:i + 3]],
+                         'common_prefix': i})
 
     def oracle_shrunk(self, ctx, text, full, doc, toks):
         """run the oracle; a violation that is not a known finding is minimised (delta debugging on the text)"""
@@ -1020,6 +1044,65 @@ class C05(Check):
             if got != mexp:
                 ctx.violate(clause, {'text': enc(text), 'full': False, 'doc': doc, 'repr': repr(text)},
                             'lexemes %r: expected %r, got %r' % (words, mexp, got))
+
+    # -- the generator with push-back (Model/TokPush.lean) ----------------------------------------------------
+    def corr_push(self, ctx):
+        """consumer scripts of next() / push(k fresh tokens) on the real generator and on the model; on the
+        implementation side also the theorems' statements: text tokens undisturbed, pushed tokens at most once"""
+        from cssutils.tokenize2 import Tokenizer
+        rng = ctx.sub_rng('push')
+        fixed = ['', 'a', 'a b', '/*c*/a', 'a/*c*/', '/*c*/', '@charset "x"; a', '\xef\xbb\xbfa{b:c}', '"x', 'url(x',
+                 'a /*c*/ /*d*/ b', '/* x']
+        lines, cases = [], []
+        for i in range(ctx.n(2500, 30000)):
+            text = rng.choice(fixed) if rng.random() < 0.35 else g_sheet(rng, rng.random() < 0.5)[0][:rng.randint(0, 30)]
+            full, doc = rng.random() < 0.5, rng.random() < 0.5
+            script = [rng.choice(['n', 'n', 'n', 'n', 'p1', 'p2', 'p0']) for _ in range(rng.randint(1, 16))]
+            if rng.random() < 0.3:
+                script += ['n'] * 6
+            lines.append('push %d %d %s %s' % (full, doc, enc(text), '.'.join(script)))
+            cases.append((text, full, doc, script))
+        out = ctx.driver(lines) if ctx.model_ok else [None] * len(lines)
+        for (text, full, doc, script), m in zip(cases, out):
+            tk = Tokenizer(doComments=doc)
+            outs, texts, pushed_out, ctr = [], [], [], 0
+            try:
+                with time_limit(5.0):
+                    g = tk.tokenize(text, fullsheet=full)
+                    pure = [tuple(t) for t in Tokenizer(doComments=doc).tokenize(text, fullsheet=full)]
+                    for a in script:
+                        if a == 'n':
+                            try:
+                                t = next(g)
+                            except StopIteration:
+                                outs.append('-')
+                                continue
+                            if t[0] == 'PUSHED':
+                                outs.append('P:%X' % t[1])
+                                pushed_out.append(t[1])
+                            else:
+                                outs.append('T:%s:%s:%d:%d' % (t[0], enc(t[1]), t[2], t[3]))
+                                texts.append(tuple(t))
+                        else:
+                            k = int(a[1:])
+                            tk.push(*[('PUSHED', ctr + j, 0, 0) for j in range(k)])
+                            ctr += k
+            except Exception as e:   # noqa
+                ctx.violate('tokenising any text terminates (and does not raise)',
+                            {'text': enc(text), 'repr': repr(text), 'full': full, 'doComments': doc, 'script': script},
+                            repr(e))
+                continue
+            ctx.case(key=('push', text, full, doc, tuple(script)), nontrivial=any(a != 'n' for a in script),
+                     kind='push')
+            got = ' '.join(outs)
+            w = {'text': enc(text), 'repr': repr(text), 'full': full, 'doComments': doc, 'script': '.'.join(script)}
+            if texts != pure[:len(texts)]:
+                ctx.violate('push-back does not disturb the tokens of the text', w,
+                            {'yielded': texts[:6], 'pure': pure[:6]})
+            elif len(set(pushed_out)) != len(pushed_out) or any(x >= ctr for x in pushed_out):
+                ctx.violate('a pushed token is yielded at most once', w, {'pushed_out': pushed_out})
+            if m is not None and m.strip() != got:
+                ctx.disagree('generator with push-back', w, got, m)
 
     def oracle_escape_spellings(self, ctx):
         cps = [0xE9, 0xC9, 0xAB, 0xB5, 0xF6, 0xDF, 0xA0, 0xFFFD, 0xABCD, 0x1F600, 0x10FFFF, 0x41, 0x6B, 0x3BB, 0x20AC,
